@@ -29,6 +29,9 @@ func runMeasure(e *simcore.Env, tp *simcore.Tape) {
 		s.Install(repo)
 		flush := []string{"1s", "5s", "30s"}[tp.Choose(3)]
 		flags := []string{"--measure-flush-timeout=" + flush}
+		qpFlags, qpTag := simnode.QueryPath(tp.Choose, "measure")
+		flags = append(flags, qpFlags...)
+		_ = qpTag
 		if tp.Bool(1, 3) {
 			flags = append(flags, fmt.Sprintf("--measure-max-merge-parts=%d", tp.Range(2, 8)))
 		}
@@ -156,6 +159,9 @@ func runStream(e *simcore.Env, tp *simcore.Tape) {
 		s.Install(repo)
 		flush := []string{"1s", "5s", "30s"}[tp.Choose(3)]
 		flags := []string{"--stream-flush-timeout=" + flush}
+		qpFlags, qpTag := simnode.QueryPath(tp.Choose, "stream")
+		flags = append(flags, qpFlags...)
+		_ = qpTag
 		if tp.Bool(1, 3) {
 			flags = append(flags, fmt.Sprintf("--stream-max-merge-parts=%d", tp.Range(2, 8)))
 		}
